@@ -16,6 +16,9 @@ func init() {
 			"the template renderer reports a context variable as undefined exactly on its missing-value edge and records it in the collector; the literal→JSON writer, the value copier and the printer cover all nine value kinds or fail loudly. " +
 			"It does not decide character-level equality of literals and JSON nor validity of the variables object for all spellings (value level).",
 		Mutants: []Mutant{
+			{Name: "footer rendered through a closure that takes the collector by value (seeded change C15-13)", File: loaderGo, Rule: "C15-R1", Key: "prepareEntityFetch/one-collector",
+				Old: "\tresponseCacheFooterStart := preparedInput.Len()\n\n\terr = fetch.Input.Footer.RenderAndCollectUndefinedVariables(l.ctx, nil, preparedInput, &undefinedVariables)\n\tif err != nil {\n\t\treturn errors.WithStack(err)\n\t}\n\n\t// Built before SetInputUndefinedVariables",
+				New: "\tresponseCacheFooterStart := preparedInput.Len()\n\n\trenderFooter := func(uv []string) error {\n\t\treturn fetch.Input.Footer.RenderAndCollectUndefinedVariables(l.ctx, nil, preparedInput, &uv)\n\t}\n\terr = renderFooter(undefinedVariables)\n\tif err != nil {\n\t\treturn errors.WithStack(err)\n\t}\n\n\t// Built before SetInputUndefinedVariables"},
 			{Name: "footer's undefined variables collected into a throw-away slice", File: loaderGo, Rule: "C15-R1", Key: "prepareBatchEntityFetch",
 				Old: "\tresponseCacheFooterStart := preparedInput.Len()\n\n\terr = fetch.Input.Footer.RenderAndCollectUndefinedVariables(l.ctx, nil, preparedInput, &undefinedVariables)\n\tif err != nil {\n\t\treturn errors.WithStack(err)\n\t}\n\n\tif l.responseCacheEnabled() && len(responseCacheItemHashes) > 0 {",
 				New: "\tresponseCacheFooterStart := preparedInput.Len()\n\n\terr = fetch.Input.Footer.RenderAndCollectUndefinedVariables(l.ctx, nil, preparedInput, new([]string))\n\tif err != nil {\n\t\treturn errors.WithStack(err)\n\t}\n\n\tif l.responseCacheEnabled() && len(responseCacheItemHashes) > 0 {"},
@@ -140,9 +143,56 @@ func runC15(r *fw.Run) {
 					st.Kill("pending")
 				}
 			}}
+			pendingAtExit := false
+			in2.H.Exit = func(ret *ast.ReturnStmt, lit *ast.FuncLit, st *fw.State) {
+				if lit == nil && st.May("pending") {
+					// an error return does not hand anything on
+					if ret != nil && len(ret.Results) > 0 {
+						last := ret.Results[len(ret.Results)-1]
+						if t := info.TypeOf(last); t != nil && t.String() == "error" {
+							if id, isID := ast.Unparen(last).(*ast.Ident); !isID || id.Name != "nil" {
+								if _, isCall := ast.Unparen(last).(*ast.CallExpr); isCall || isID {
+									// returning a non-nil error expression (err / errors.WithStack(err)): exempt only when it is not the nil literal
+									if isID && id.Name == "err" || isCall {
+										return
+									}
+								}
+							}
+						}
+					}
+					pendingAtExit = true
+				}
+			}
 			in2.Run(nil)
 			r.Check(ok, "C15-R1", fi.Name()+"/consumed-inline", fi.Pos(), fi.Name()+" inspects the collector before it forwards the rendered bytes",
 				"the rendered value is forwarded without looking at the collector: a null that only stands for an omitted variable is sent")
+			if pendingAtExit {
+				// a helper that renders for its caller: what it collected must reach the caller — the collector is the caller's
+				// (a *[]string parameter passed through) or is returned
+				escapes := false
+				if v, isVar := collector.(*types.Var); isVar {
+					if _, isPtr := v.Type().Underlying().(*types.Pointer); isPtr {
+						sig := fi.Obj.Type().(*types.Signature)
+						for i := 0; i < sig.Params().Len(); i++ {
+							if sig.Params().At(i) == v {
+								escapes = true
+							}
+						}
+					}
+				}
+				fw.WalkAll(fi.Decl.Body, func(nd ast.Node) bool {
+					if ret, isRet := nd.(*ast.ReturnStmt); isRet {
+						for _, res := range ret.Results {
+							if fw.RootObj(info, res) == collector {
+								escapes = true
+							}
+						}
+					}
+					return true
+				})
+				r.Check(escapes, "C15-R1", fi.Name()+"/collector-reaches-the-caller", fi.Pos(), "what "+fi.Name()+" collects reaches its caller (pointer parameter passed through, or returned)",
+					"the helper collects the undefined variables into its own copy (a by-value slice parameter or a local that is not returned): the caller's collector never sees them, SetInputUndefinedVariables has nothing to remove, and a variable the client omitted reaches the subgraph as an explicit null")
+			}
 		}
 	}
 	r.Expect("C15-R1", "functions collecting undefined variables", nFns, 3)
